@@ -11,6 +11,7 @@ INST = {
     "I3": ("w3", [1]),
     "I4": ("s2", [1]),      # same service id as I1, other instance: one wildcard find matches both
     "I5": ("s5", [1]),      # same service id AND instance id as I1, other major version
+    "I6": ("s1", [1, 2]),   # the very same service as I1 (another listener, another endpoint option): both answer a find
 }
 SUBSVC = ["s1", "s2", "s3", "s4"]
 
@@ -72,8 +73,9 @@ def spec_consts(tc, insts, ann0=(), rand_vals=(0, 1, 2, 3), sw="AllOff", max_id=
     return {"Match": "<<>>", "Cfg": c, "Sw": sw}
 
 
-def run_schedule(sched, tc, insts, ann0=(), rand=None, t_extra=None):
+def run_schedule(sched, tc, insts, ann0=(), rand=None, t_extra=None, send_failures=()):
     st = sdenv.Stack(tim=timings(tc), rand=rand)
+    st.prot.transport.fail = set(send_failures)
     ann = st.prot.announcer
 
     decisions = []      # (src, svc, eg, ctr, eps) -> acc, for the entries of the datagram being delivered, in order
@@ -88,10 +90,15 @@ def run_schedule(sched, tc, insts, ann0=(), rand=None, t_extra=None):
     objs = {}
     for i in insts:
         svcname, egs = INST[i]
-        service = sdenv.service(svcname, eventgroups=frozenset(egs), options_1=(sdenv.EP["e1"],) if i == "I1" else ())
+        service = sdenv.service(svcname, eventgroups=frozenset(egs), options_1=(sdenv.EP["e1"],) if i == "I1" else (sdenv.EP["e4"],) if i == "I6" else ())
         objs[i] = sd.ServiceInstance(service, sdenv.ServerL(st.rec, i, decide), ann, st.prot.timings)
     for i in ann0:
         ann.announce_service(objs[i])
+    # an "on-demand" application: the first time a client of <inst> goes away it withdraws the service, from inside the callback
+    for inp in sched:
+        if inp["op"] == "arm_withdraw":
+            i = inp["inst"]
+            objs[i].listener.on_unsubscribed = (lambda i=i: st.call({"op": "stop_announce", "inst": i}, ann.stop_announce_service, objs[i]))
 
     def do(inp):
         op = inp["op"]
@@ -110,6 +117,8 @@ def run_schedule(sched, tc, insts, ann0=(), rand=None, t_extra=None):
             st.call(ev, ann.stop_announce_service, objs[inp["inst"]])
         elif op == "connlost":
             st.call(ev, st.prot.connection_lost, None)
+        elif op == "arm_withdraw":
+            pass
         elif op == "queue":
             st.call(ev, ann.queue_send, sdenv.conc_entry(inp["en"]),
                     remote=None if inp["dst"] == "mc" else sdenv.ADDR[inp["dst"]])
